@@ -15,6 +15,7 @@ struct Kw {
     std::string name;
     std::vector<std::vector<std::string>> recs;   // each record = tokens; printed "tok tok … /"
     bool terminated = true;                        // keyword ends with a line holding a single "/"
+    std::string raw;                               // non-empty: printed verbatim (one or more complete keywords of a family the generator does not model)
     std::string text() const;
 };
 
@@ -63,6 +64,8 @@ struct GenOpts {
     bool late_edits = false;                // later blocks also carry WPIMULT, WSEGVALV (MSW wells), COMPDAT re-specification, WECON, WTEST on wells that exist since block 0
     bool udq_unary_minus = false;           // UDQ DEFINE expressions with a unary minus (-FOPT * 2, -(FOPT + 10), -WOPT)
     bool tuning_vfp = false;                // NEXTSTEP in ACTIONX bodies and later blocks; a VFPPROD table in block 0 that later blocks define again
+    bool family_snippets = false;           // later blocks carry complete keywords of further families (group controls, gas lift, guide rates, RFT, well lists, VFPINJ, TUNING, RPTRST ...)
+    bool family_static_free = false;        // leave out the families from whose mere presence the library infers run-wide configuration (LIFTOPT -> ALQ meaning of VFPPROD tables, GRUPNET -> network active): C03
     bool geo_kws = false;                   // MULTX/MULTY/MULTZ(-) over the whole grid in later blocks and in ACTIONX bodies (ScheduleState::geo_keywords)
     bool reparent_groups = false;           // GRUPTREE records that move an existing group (later blocks: anywhere legal; action bodies: to FIELD)
     bool allow_msw = true, allow_history = true, allow_groups = true;
